@@ -124,14 +124,12 @@ def snapshot(v):
     if isinstance(v, dict):
         return ('dict', [(snapshot(k), snapshot(x)) for (k, x) in v.items()])
     if isinstance(v, (set, frozenset)):
-        return ('set', sorted(repr(x) for x in v))
+        return ('set', [snapshot(x) for x in v])
     pi = getattr(type(v), '__pane_info__', None)
     if pi is not None:
         return ('pane', type(v).__name__, [(f.name, snapshot(getattr(v, f.name, None))) for f in pi.fields],
                 sorted(getattr(v, '__pane_set__', ())))
-    if isinstance(v, float) and v != v:
-        return ('nan',)
-    return ('leaf', type(v).__name__, v)
+    return ('leaf', type(v).__name__, v)     # eqv() is NaN-aware and short-cuts on identity (no float comparison)
 
 
 def snap_eq(a, b):
@@ -244,13 +242,16 @@ def cint(i):
         return 7
 
 
+CI_ALL = [False]     # harnesses where int *values* are irrelevant (e.g. C09) set this to concretise every int payload
+
+
 def lf(k, i, s, ci=False):
     if k == 0:
         return None
     elif k == 1:
         return i > 0
     elif k == 2:
-        return cint(i) if ci else i
+        return cint(i) if (ci or CI_ALL[0]) else i
     elif k == 3:
         return fl3(i)
     elif k == 4:
@@ -265,7 +266,7 @@ def lf3(k, i, s, ci=False):
     if k == 0:
         return None
     elif k == 1:
-        return cint(i) if ci else i
+        return cint(i) if (ci or CI_ALL[0]) else i
     else:
         if len(s) > STR_MAX:
             raise OutOfBound()
